@@ -731,4 +731,267 @@ func TestVerif_C17_Race(t *testing.T) {
 	for i := 0; i < rounds; i++ {
 		c17RaceRound(t, run, ctx, vs, peer, sender, i, run.CaseRand(i))
 	}
+	// two concurrent checkpoint runs (timer goroutine + stop path) under the race detector as well
+	vs.logOn.Store(true)
+	for i := 0; i < run.N(12, 60); i++ {
+		c17OverlapCase(t, run, "race", ctx, vs, peer, sender, i, run.CaseRand(100000+i))
+	}
+}
+
+// ---------------------------------------------------------------------------------------------
+// overlap part: TWO concurrent checkpoint runs on one checkpointer, as in production where the timer
+// goroutine started by Start() overlaps the CheckpointNow issued by waitForExpectedSequences on the stop path.
+// The H1 store parks the first run's local checkpoint write; meanwhile a second caller reports further
+// completions and runs CheckpointNow. The park ends when the second run has returned, or as soon as the
+// checkpointer lock is observed to stay held (the second caller cannot proceed: computing and persisting are
+// one critical section) - that only decides which schedule is executed. The verdict comes from the values that
+// reach each store, in commit order: they must never go backwards under SequenceID.Before, and must end at the
+// maximum.
+
+func c17OverlapCase(t testing.TB, run *vlib.Run, part string, ctx context.Context, vs *vStore, peer *c17Peer, sender *blip.Sender, caseNo int, r *vlib.Rand) {
+	variant := "two-callers"
+	if caseNo%2 == 1 {
+		variant = "timer-and-stop-path"
+	}
+	client := fmt.Sprintf("c17ov-%s-%d-%d", part, run.Seed, caseNo)
+	key := c17LocalKey(client)
+	ds := vs.vb.DefaultDataStore(ctx).(base.DataStore)
+	n := r.Range(4, 14)
+	var toks []SequenceID
+	if r.Bool() {
+		toks = c17GenTranscript(r, n)
+	} else {
+		toks = c17GenSorted(r, n)
+	}
+	n = len(toks)
+	for i := 0; i < n; i++ {
+		for j := i + 1; j < n; j++ {
+			if !toks[i].Before(toks[j]) || toks[j].Before(toks[i]) {
+				run.Count("cases_skipped_feed_order_not_strict", 1)
+				return
+			}
+		}
+	}
+	k1 := r.Range(1, n-1) // the first run sees tokens [0,k1) reported, the second all of them
+	cctx, cancel := context.WithCancel(ctx)
+	defer cancel()
+	cfg := c17ReplicatorConfig()
+	if variant == "timer-and-stop-path" {
+		cfg.CheckpointInterval = time.Millisecond
+	}
+	c := NewCheckpointer(cctx, ds, ds, client, "c17hash", sender, cfg, nil)
+	if err := c.fetchDefaultCollectionCheckpoints(); err != nil {
+		run.Inconclusive(part + ": initial fetch of checkpoints failed: " + err.Error())
+		return
+	}
+	known := make([]bool, n)
+	var ex, kn []SequenceID
+	for i := range known {
+		// the last token of each run's range is a wanted one, so each run has a distinct value to persist
+		known[i] = i != k1-1 && i != n-1 && r.Chance(1, 4)
+		if known[i] {
+			kn = append(kn, toks[i])
+		} else {
+			ex = append(ex, toks[i])
+		}
+	}
+	hist := []string{fmt.Sprintf("expect(%v) alreadyKnown(%v)", c17TokStrings(ex), c17TokStrings(kn))}
+	c.AddExpectedSeqs(ex...)
+	c.AddAlreadyKnownSeq(kn...)
+	for _, i := range r.Perm(k1) {
+		if !known[i] {
+			c.AddProcessedSeq(toks[i])
+			hist = append(hist, "processed("+toks[i].String()+")")
+		}
+	}
+
+	vs.ResetLog()
+	var parkedOnce atomic.Bool
+	parked := make(chan struct{})
+	bDone := make(chan struct{})
+	var overlapped, lockHeld, hookTimeout atomic.Bool
+	vs.SetFault(func(op *base.VerifOp, actor string) base.VerifDecision {
+		if op.Key != key || op.Kind != "Update" || !parkedOnce.CompareAndSwap(false, true) {
+			return base.VerifDecision{}
+		}
+		close(parked)
+		deadline := time.Now().Add(10 * time.Second) // watchdog only
+		fails := 0
+		for {
+			select {
+			case <-bDone:
+				overlapped.Store(true)
+				return base.VerifDecision{}
+			default:
+			}
+			if c.lock.TryLock() {
+				c.lock.Unlock()
+				fails = 0
+			} else if fails++; fails >= 25 {
+				lockHeld.Store(true) // the run that is persisting holds the checkpointer lock: nobody can overtake it
+				return base.VerifDecision{}
+			}
+			if time.Now().After(deadline) {
+				hookTimeout.Store(true)
+				return base.VerifDecision{}
+			}
+			time.Sleep(400 * time.Microsecond)
+		}
+	})
+	defer vs.SetFault(nil)
+
+	// first run: its local checkpoint write gets parked
+	var wg sync.WaitGroup
+	if variant == "two-callers" {
+		wg.Add(1)
+		go func() { defer wg.Done(); c.CheckpointNow() }()
+		hist = append(hist, "caller A: CheckpointNow (local write parked)")
+	} else {
+		c.Start() // the real timer goroutine
+		hist = append(hist, "Start(): timer tick runs CheckpointNow (local write parked)")
+	}
+	select {
+	case <-parked:
+	case <-time.After(10 * time.Second):
+		run.Inconclusive(part + ": the first checkpoint run never reached its local write")
+		cancel()
+		wg.Wait()
+		c.closeWg.Wait()
+		return
+	}
+	// second caller (the stop path): further completions, then its own checkpoint run
+	wg.Add(1)
+	go func() {
+		defer wg.Done()
+		defer close(bDone)
+		for _, i := range r.Perm(n - k1) {
+			if j := k1 + i; !known[j] {
+				c.AddProcessedSeq(toks[j])
+			}
+		}
+		c.CheckpointNow()
+	}()
+	hist = append(hist, fmt.Sprintf("caller B: processed(%v) then CheckpointNow", c17TokStrings(toks[k1:])))
+	// both runs have persisted once SetCheckpointCount reaches 2 (state predicate, generous watchdog)
+	okBoth := false
+	for deadline := time.Now().Add(20 * time.Second); time.Now().Before(deadline); {
+		select {
+		case <-bDone:
+			if c.Stats().SetCheckpointCount >= 2 {
+				okBoth = true
+			}
+		default:
+		}
+		if okBoth {
+			break
+		}
+		time.Sleep(200 * time.Microsecond)
+	}
+	cancel()
+	wg.Wait()
+	c.closeWg.Wait()
+	vs.SetFault(nil)
+	if hookTimeout.Load() || !okBoth {
+		run.Inconclusive(part + ": overlapping checkpoint runs did not both complete within the watchdog")
+		return
+	}
+
+	// values that reached each store, in commit order
+	var localOps []*base.VerifOp
+	for _, op := range vs.Log() {
+		if op.Key == key && op.Kind == "Update" && op.Applied && !op.Deleted && len(op.Value) > 0 {
+			localOps = append(localOps, op)
+		}
+	}
+	allCas := true
+	for _, op := range localOps {
+		if op.CasOut == 0 {
+			allCas = false
+		}
+	}
+	if allCas {
+		sortOpsByCas(localOps)
+	}
+	stores := map[string][]string{"local": c17LocalWrites(localOps, key), "remote": peer.Accepted(client)}
+	max := toks[n-1]
+	idx := map[SequenceID]bool{}
+	for _, s := range toks {
+		idx[s] = true
+	}
+	sched := "serialized-by-checkpointer-lock"
+	if overlapped.Load() {
+		sched = "second-run-finished-while-first-was-persisting"
+		run.Count("cases_second_run_overtook_first", 1)
+	}
+	if lockHeld.Load() {
+		run.Count("cases_lock_held_during_persistence", 1)
+	}
+	sigp := "C17|overlap"
+	if part != "overlap" {
+		sigp = "C17|" + part + "|overlap"
+	}
+	wit := func() map[string]any {
+		return map[string]any{"case": caseNo, "variant": variant, "tokens": c17TokStrings(toks), "first_run_sees_reported": c17TokStrings(toks[:k1]),
+			"history": hist, "schedule": sched, "values_reaching_local_store": stores["local"], "values_reaching_remote_store": stores["remote"],
+			"replay": "park the first Update of the local checkpoint document until the second caller's CheckpointNow has returned"}
+	}
+	for _, store := range []string{"local", "remote"} {
+		vals := stores[store]
+		var last *SequenceID
+		for _, v := range vals {
+			run.Count("persisted_values_checked", 1)
+			s, err := ParsePlainSequenceID(v)
+			if err != nil || !idx[s] {
+				run.Violation("persisted-value", sigp+"|"+store+"|persisted-value-not-an-announced-token", fmt.Sprintf("%s store received %q", store, v), wit())
+				continue
+			}
+			if last != nil && s.Before(*last) {
+				run.Violation("monotone", sigp+"|"+store+"|persisted-checkpoint-went-backwards|callers="+variant,
+					fmt.Sprintf("two overlapping checkpoint runs: %s store received checkpoint %q after %q (values in commit order: %v)", store, v, last.String(), vals), wit())
+			}
+			last = &s
+		}
+		if last == nil || last.Before(max) {
+			got := "nothing"
+			if last != nil {
+				got = last.String()
+			}
+			run.Violation("final-maximum", sigp+"|"+store+"|final-persisted-checkpoint-below-maximum|callers="+variant,
+				fmt.Sprintf("both checkpoint runs completed after everything was reported; %s store ends at %s, maximum announced %q (values in commit order: %v)", store, got, max.String(), vals), wit())
+		}
+	}
+	run.Eval()
+	run.Count("cases_"+variant, 1)
+	run.Nontrivial(fmt.Sprintf("%s|%d|%d", part, run.Seed, caseNo))
+	if caseNo < 2 {
+		run.Sample(wit())
+	}
+}
+
+func sortOpsByCas(ops []*base.VerifOp) {
+	for i := 1; i < len(ops); i++ {
+		for j := i; j > 0 && ops[j].CasOut < ops[j-1].CasOut; j-- {
+			ops[j], ops[j-1] = ops[j-1], ops[j]
+		}
+	}
+}
+
+func TestVerif_C17_Overlap(t *testing.T) {
+	run := vlib.Start(t, "C17", "overlap")
+	defer run.Finish()
+	ctx := base.TestCtx(t)
+	vs := newVStore(t)
+	defer vs.Close(ctx)
+	peer := c17StartPeer(t)
+	defer peer.Close()
+	sender, closeSender := peer.Dial(t)
+	defer closeSender()
+	cases := run.N(80, 600)
+	if i, ok := run.OnlyCase(); ok {
+		c17OverlapCase(t, run, "overlap", ctx, vs, peer, sender, i, run.CaseRand(i))
+		return
+	}
+	for i := 0; i < cases; i++ {
+		c17OverlapCase(t, run, "overlap", ctx, vs, peer, sender, i, run.CaseRand(i))
+	}
 }
